@@ -89,6 +89,17 @@ SEED_FENS = {
  'castle_rook_capt': 'r3k2r/8/8/8/8/8/5n2/R3K2R b KQkq - 0 1',
  'castle_rook_capt2': 'r3k2r/8/1N4N1/8/8/8/8/R3K2R w KQkq - 0 1',
  'castle_rights_subset': 'r3k2r/8/8/8/8/8/8/R3K2R w Kq - 0 1',
+ # castling with a man standing on each square between king and rook (own knight / enemy knight), both colours
+ 'castle_blk_b1': 'r3k2r/8/8/8/8/8/8/RN2K2R w KQkq - 0 1', 'castle_blk_c1': 'r3k2r/8/8/8/8/8/8/R1N1K2R w KQkq - 0 1',
+ 'castle_blk_d1': 'r3k2r/8/8/8/8/8/8/R2NK2R w KQkq - 0 1', 'castle_blk_f1': 'r3k2r/8/8/8/8/8/8/R3KN1R w KQkq - 0 1',
+ 'castle_blk_g1': 'r3k2r/8/8/8/8/8/8/R3K1NR w KQkq - 0 1',
+ 'castle_blk_b8': 'rn2k2r/8/8/8/8/8/8/R3K2R b KQkq - 0 1', 'castle_blk_c8': 'r1n1k2r/8/8/8/8/8/8/R3K2R b KQkq - 0 1',
+ 'castle_blk_d8': 'r2nk2r/8/8/8/8/8/8/R3K2R b KQkq - 0 1', 'castle_blk_f8': 'r3kn1r/8/8/8/8/8/8/R3K2R b KQkq - 0 1',
+ 'castle_blk_g8': 'r3k1nr/8/8/8/8/8/8/R3K2R b KQkq - 0 1',
+ 'castle_eblk_b1': 'r3k2r/8/8/8/8/8/8/Rn2K2R w KQkq - 0 1', 'castle_eblk_g1': 'r3k2r/8/8/8/8/8/8/R3K1nR w KQkq - 0 1',
+ 'castle_eblk_b8': 'rN2k2r/8/8/8/8/8/8/R3K2R b KQkq - 0 1', 'castle_eblk_g8': 'r3k1Nr/8/8/8/8/8/8/R3K2R b KQkq - 0 1',
+ 'castle_shuffle': 'r3k2r/pp4pp/2n5/8/8/2N5/PP4PP/R3K2R w KQkq - 0 1', 'castle_shuffle_b': 'r3k2r/pp4pp/2n5/8/8/2N5/PP4PP/R3K2R b KQkq - 0 1',
+ 'castle_blk_b8_mid': 'rn2k2r/pppq1ppp/3bpn2/3p4/3P4/2NBPN2/PPPQ1PPP/R3K2R b KQkq - 4 8', 'castle_blk_b1_mid': 'r3k2r/pppq1ppp/2nbpn2/3p4/3P4/3BPN2/PPPQ1PPP/RN2K2R w KQkq - 4 8',
  # promotions
  'promo_all': 'r1n1k3/1P6/8/8/8/8/4p1p1/4K2R w K - 0 1',
  'promo_b': '4k3/8/8/8/8/8/1pp3p1/R1N1K2N b - - 0 1',
